@@ -31,13 +31,13 @@ theorem eq_mk_nil_of_zero_mem (a : Arr α) (hwf : a.WF) (h0 : 0 ∈ a.shape) : a
 theorem split_flat_nil (zero : α) (P : Nat) (hP : 0 < P) :
     (Arr.flat ([] : List α)).split zero P none = .ok [Arr.flat []] := by
   unfold Arr.split
-  rw [if_neg (by simp), if_neg (by omega)]
+  rw [if_neg (by simp [Arr.ndim, Arr.flat]), if_neg (by omega)]
   simp [Arr.isEmpty, Arr.flat]
 
-/-- `split(0, None)` refuses -/
-theorem split_zero_parts (a : Arr α) (zero : α) : a.split zero 0 none = .err .ParameterError := by
+/-- `split(0, None)` refuses (rank ≥ 1: the defaulted axis 0 is validated first) -/
+theorem split_zero_parts (a : Arr α) (zero : α) (h : 1 ≤ a.ndim) : a.split zero 0 none = .err .ParameterError := by
   unfold Arr.split
-  rw [if_neg (by simp), if_pos rfl]
+  rw [if_neg (by simp; omega), if_pos rfl]
 
 /-- zero in the shape: either the processed axis is the only zero, or another axis is zero -/
 theorem zero_mem_cases (s : List Nat) (axis : Nat) (hax : axis < s.length) (h0 : 0 ∈ s) :
@@ -74,7 +74,7 @@ theorem applyAlongAxis_other_zero (a : Arr α) (zero : α) (zb : β) (axis : Nat
   have hP : (a.shape.eraseIdx axis).prod = 0 := prod_eq_zero_of_mem _ h0
   unfold Arr.applyAlongAxis
   rw [if_neg (by omega)]
-  simp only [ha1, Res.bind_ok, hP, split_zero_parts, Res.bind_err]
+  simp only [ha1, Res.bind_ok, hP, split_zero_parts arr.ravel zero (Nat.le_refl 1), Res.bind_err]
 
 /-- in a shape whose other axes all have length 1 the flat position is the coordinate of the remaining axis -/
 theorem ravel_insertIdx_unit : ∀ (s c : List Nat) (i m j : Nat), inRange s c = true → s.prod = 1 → i ≤ s.length →
